@@ -400,10 +400,19 @@ def plan(ctx):
         heavy = nm in ('lt_1d', 'ge_1d')
         groups.append(Group(name='Time.format_duration[%s]' % nm, harness='harness/C18/duration.c', entry='h_format_duration',
                             function='format_duration', enforce='format_duration', replace=['c18_fdiv', 'c18_lemma_dhm'],
-                            defines=['DUR_LO=%dull' % lo, 'DUR_HI=%dull' % hi], first='z3' if heavy else 'cadical', stage1=40 if heavy else 15,
-                            timeout=400, replay=RP,
+                            defines=['DUR_LO=%dull' % lo, 'DUR_HI=%dull' % hi], first='z3' if heavy else 'cadical', stage1=240 if heavy else 15,
+                            engines=['z3', 'cvc5'] if heavy else None, timeout=600, replay=RP,
                             clause_note='contracts/C18_duration.h: never throws; grammar [d:][h:][m:]s[.f]; inner fields two characters zero padded; '
                                         'fields * unit + numerator of the printed seconds == usecs; h<24, m<60, s<60; requested precision'))
+    # bounded falsifiers (never counted as proof): the same contract on narrow bands across the unit boundaries.  A source edit that
+    # makes an unbounded group above undecidable within its time budget still gets a concrete, natively replayable counterexample here.
+    bands = [('band_1h', 59 * 60 * US + 58 * US), ('band_1d', (23 * 3600 + 59 * 60 + 58) * US), ('band_1d13h', (86400 + 12 * 3600 + 59 * 60 + 58) * US)]
+    for nm, lo in bands:
+        groups.append(Group(name='Time.format_duration[%s]' % nm, harness='harness/C18/duration.c', entry='h_format_duration',
+                            function='format_duration', enforce='format_duration', replace=['c18_fdiv', 'c18_lemma_dhm'],
+                            defines=['DUR_LO=%dull' % lo, 'DUR_HI=%dull' % (lo + 4 * US - 1)], kind='bounded',
+                            bound='usecs in [%d, %d] (4 s at microsecond resolution across a unit boundary), all precisions' % (lo, lo + 4 * US - 1),
+                            first='cadical', stage1=15, timeout=300, replay=RP))
     groups.append(Group(name='stub.c18_fdiv.bounds', harness='harness/C18/duration.c', entry='h_fdiv', function='(double)num / den (model lemma)',
                         enforce='c18_fdiv', defines=['DUR_LO=0', 'DUR_HI=0'], kind='lemma', first='cvc5', stage1=60, timeout=300))
     ufm = format_time_unit(ctx, src)
